@@ -27,12 +27,12 @@ package timeouts
 //@ func setupTimeouts
 //@   requires c != nil && occurrences == 0 && blockEntries == 0 && plainForms == 0
 //@   modifies ghost:occurrences, ghost:blockEntries, ghost:plainForms, Dispenser.cursor, Dispenser.nesting, SiteConfig.Timeouts, Timeouts.IdleTimeout, Timeouts.IdleTimeoutSet, Timeouts.ReadHeaderTimeout, Timeouts.ReadHeaderTimeoutSet, Timeouts.ReadTimeout, Timeouts.ReadTimeoutSet, Timeouts.WriteTimeout, Timeouts.WriteTimeoutSet
-//@   at call (*Dispenser).Next assert [no_occurrence_skipped] occurrences == 0 || blockEntries + plainForms >= 1
-//@   at call (*Dispenser).Next do occurrences = occurrences + 1
-//@   at call (*Dispenser).Next do blockEntries = 0
-//@   at call (*Dispenser).Next do plainForms = 0
-//@   at call (*Dispenser).Val#1 do blockEntries = blockEntries + 1
-//@   at call (*Dispenser).NextArg#3 do plainForms = plainForms + 1
+//@   at call (*github.com/tmpim/casket/casketfile.Dispenser).Next assert [no_occurrence_skipped] occurrences == 0 || blockEntries + plainForms >= 1
+//@   at call (*github.com/tmpim/casket/casketfile.Dispenser).Next do occurrences = occurrences + 1
+//@   at call (*github.com/tmpim/casket/casketfile.Dispenser).Next do blockEntries = 0
+//@   at call (*github.com/tmpim/casket/casketfile.Dispenser).Next do plainForms = 0
+//@   at call (*github.com/tmpim/casket/casketfile.Dispenser).Val#1 do blockEntries = blockEntries + 1
+//@   at call (*github.com/tmpim/casket/casketfile.Dispenser).NextArg#3 do plainForms = plainForms + 1
 //@   loop 1 invariant c != nil && occurrences >= 0 && (occurrences == 0 || blockEntries + plainForms >= 1)
 //@   loop 2 invariant c != nil
 //@   loop 2 invariant occurrences >= 1
